@@ -346,15 +346,16 @@ package check
 // ---- invert: the negation used for else-branches and loop exits is exact ----
 // Language semantics of the boolean operators on existing nodes (as cmpsem for the
 // comparisons), and: a bool-typed expression is 0 or 1.
-//@ axiom boolsem(e *a.Expr): implies(e != nil && opOf(e) == t.IDXUnaryNot, rhsOf(e) != nil && wval(e) == 1 - wval(rhsOf(e))) && implies(e != nil && opOf(e) == t.IDXBinaryAnd, lhsOf(e) != nil && rhsOf(e) != nil && wval(e) == ite(wval(lhsOf(e)) == 1 && wval(rhsOf(e)) == 1, 1, 0)) && implies(e != nil && opOf(e) == t.IDXBinaryOr, lhsOf(e) != nil && rhsOf(e) != nil && wval(e) == ite(wval(lhsOf(e)) == 1 || wval(rhsOf(e)) == 1, 1, 0))
-//@ axiom boolval(e *a.Expr): implies(e != nil && tyIsBool(mtypeOf(e)), wval(e) == 0 || wval(e) == 1)
+//@ axiom opt_boolsem(e *a.Expr): implies(e != nil && opOf(e) == t.IDXUnaryNot, rhsOf(e) != nil && wval(e) == 1 - wval(rhsOf(e))) && implies(e != nil && opOf(e) == t.IDXBinaryAnd, lhsOf(e) != nil && rhsOf(e) != nil && wval(e) == ite(wval(lhsOf(e)) == 1 && wval(rhsOf(e)) == 1, 1, 0)) && implies(e != nil && opOf(e) == t.IDXBinaryOr, lhsOf(e) != nil && rhsOf(e) != nil && wval(e) == ite(wval(lhsOf(e)) == 1 || wval(rhsOf(e)) == 1, 1, 0))
+//@ axiom opt_boolval(e *a.Expr): implies(e != nil && tyIsBool(mtypeOf(e)), wval(e) == 0 || wval(e) == 1)
 // noAssoc(e): no associative "and"/"or" node on the and/or spine of e (those are
 // outside this contract: their value is a fold over an argument list).
 //@ ghost noAssoc(e *a.Expr) bool
-//@ axiom noassoc(e *a.Expr): implies(e != nil && noAssoc(e), opOf(e) != t.IDXAssociativeAnd && opOf(e) != t.IDXAssociativeOr && implies(opOf(e) == t.IDXBinaryAnd || opOf(e) == t.IDXBinaryOr, lhsOf(e) != nil && rhsOf(e) != nil && noAssoc(lhsOf(e)) && noAssoc(rhsOf(e))))
+//@ axiom opt_noassoc(e *a.Expr): implies(e != nil && noAssoc(e), opOf(e) != t.IDXAssociativeAnd && opOf(e) != t.IDXAssociativeOr && implies(opOf(e) == t.IDXBinaryAnd || opOf(e) == t.IDXBinaryOr, lhsOf(e) != nil && rhsOf(e) != nil && noAssoc(lhsOf(e)) && noAssoc(rhsOf(e))))
 
 //@ func invert
 //@   prop C02
+//@   uses opt_boolsem opt_boolval opt_noassoc
 //@   requires n != nil
 //@   requires[scope] noAssoc(n)
 //@   ensures[negation] implies(result1 == nil, result0 != nil && (wval(n) == 0 || wval(n) == 1) && wval(result0) == 1 - wval(n))
